@@ -38,6 +38,20 @@ class NeedSplit(Exception):
         self.aid, self.x0 = aid, x0
 
 
+class UnsupportedValue(Unsupported):
+    """an Unknown / Bad value met where a formula is needed: carries the value, so that a provable failure (Bad) is not diluted into Unknown"""
+
+    def __init__(self, v):
+        super().__init__(v.why)
+        self.value = v
+
+
+def lost(e):
+    """the value an `except Unsupported` clause hands on"""
+    v = getattr(e, "value", None)
+    return v if is_bad(v) else Unknown(str(e))
+
+
 class PyRaise(Exception):
     """the evaluated code raises a Python exception the evaluator can predict (unpacking a constant): caught by an enclosing `try`"""
 
@@ -417,6 +431,10 @@ class World:
         self.crashes = []            # (node, why, qual): statements that provably raise on the evaluated path (unbound local, str - str, ...)
 
     def gap(self, node, why, qual=None):
+        if self.misreads or self.crashes:
+            # the evaluation already met a provable failure in this world (a read that cuts a field, a statement that raises): what it
+            # cannot follow afterwards is a consequence of that failure, which is reported - not a hole of its own
+            return
         try:
             where = self.ctx.src.where(node) if node is not None and hasattr(node, "lineno") else (qual or "")
         except Exception:  # noqa
@@ -489,7 +507,7 @@ def wrap(v):
     if isinstance(v, BytesV):
         return F.fn("bytes", *[wrap(it.value) if it.value is not None else F.sym("pad") for it in v.items])
     if is_unknown(v):
-        raise Unsupported(v.why)
+        raise UnsupportedValue(v)
     raise Unsupported(f"value {type(v).__name__} inside an opaque application")
 
 
@@ -980,7 +998,7 @@ class OP4Eval(AutoEvaluator):
             if isinstance(op, (ast.FloorDiv, ast.Mod, ast.LShift, ast.RShift, ast.BitAnd, ast.BitOr)):
                 return self._intop(op, a, b, node)
         except Unsupported as e:
-            return Unknown(str(e))
+            return lost(e)
         return Unknown(f"operator {type(op).__name__}")
 
     # ------------------------------------------------------------------------------------------------ expressions
@@ -988,7 +1006,7 @@ class OP4Eval(AutoEvaluator):
         try:
             return self._ev(node)
         except Unsupported as e:
-            return Unknown(str(e))
+            return lost(e)
 
     def _ev(self, node):
         W = self.W
@@ -1527,7 +1545,7 @@ class OP4Eval(AutoEvaluator):
                     return F.fn("idx", base, F.fn("list", *ix))          # X[[i, j]]: the elements i, j (not the entry X[i, j])
                 return F.fn("idx", base, wrap(ix))
             except Unsupported as e:
-                return Unknown(str(e))
+                return lost(e)
         return Unknown(f"subscript of {type(base).__name__}")
 
     # ------------------------------------------------------------------------------------------------ calls
@@ -1589,7 +1607,10 @@ class OP4Eval(AutoEvaluator):
                 pre = self.canon(dotted(f.value))
                 is_const = (isinstance(f.value, ast.Name) and f.value.id in W.consts and f.value.id not in self.locals) or \
                     (isinstance(f.value, ast.Attribute) and f.value.attr in W.class_consts and dotted(f.value.value) in ("self", W.cls))
-                if name is None or root in self.env or root in W.pinned or root == "self" or pre in self.env or pre in W.pinned or is_const:
+                unbound = root is not None and self.fn is not None and root not in self.env and root not in W.pinned and root not in ("self", W.cls) \
+                    and root not in W.table and root not in W.consts \
+                    and (root in self.locals or (root not in W.module_names and not hasattr(builtins, root)))
+                if name is None or root in self.env or root in W.pinned or root == "self" or pre in self.env or pre in W.pinned or is_const or unbound:
                     recv = self._ev(f.value)
                     method = f.attr
                     if is_unknown(recv):
@@ -2978,14 +2999,14 @@ class OP4Eval(AutoEvaluator):
                 try:
                     self.env[d] = F.fn("upd", wrap(base), wrap(ix), wrap(v))
                 except Unsupported as e:
-                    self.env[d] = Unknown(str(e))
+                    self.env[d] = lost(e)
             return
 
     def ev_index(self, sl):
         try:
             return self.index_value(sl)
         except Unsupported as e:
-            return Unknown(str(e))
+            return lost(e)
 
 
 # ------------------------------------------------------------------------------------------------------------------ lines and items
